@@ -1,6 +1,7 @@
 import ReplicatProofs.Lemmas.SigV4Wire
 import ReplicatProofs.Lemmas.SigV4Payload
 import ReplicatProofs.Lemmas.SigV4Dots
+import ReplicatProofs.Lemmas.SigV4Redirect
 /-!
 # C16 — every request sent to an S3 service is correctly signed
 
@@ -224,7 +225,78 @@ theorem retry_without_rewind_witness :
     as.map (fun a => (a.put.declaredDigest, a.put.declaredLength, a.put.body)) = [([1, 2, 3], 3, [1, 2, 3]), ([1, 2, 3], 3, [3])] := by
   decide
 
+/-! ## every request on the wire comes from `_prepare_request` (replies that could make the HTTP client emit requests itself)
+
+The theorems above speak about `toWire c i`, the request built from ONE signing.  That these are all the requests on the wire is a
+fact about `AsyncClient.send` and the service's replies: a 301 / 302 / 303 / 307 / 308 with a `Location` makes httpx build a
+follow-up request itself — same `x-amz-date` / `x-amz-content-sha256`, the `Authorization` of the answered request (same origin)
+or none (other host / port / scheme), new path, possibly another method — unless redirects are not followed or the response hook
+raises first.  `redirects_never_followed` is discharged from the two generated items (`follow_redirects` at every `send` / client,
+shape of `_raise_for_status_hook`); it stops compiling when the code gives up BOTH (either one alone is inert:
+`sendWith_single` needs only one of them). -/
+
+/-- the code as it is never lets httpx follow a redirect: `follow_redirects` is false at the client and at every `send`, or the
+response hook raises for every status outside 2xx before httpx looks at `Location` (today: both; each alone would do, and a
+change of one of them alone leaves this theorem standing) -/
+theorem redirects_never_followed : Safe Gen.s3FollowRedirects Gen.s3HookRaisesOnNon2xx := by
+  unfold Safe
+  decide
+
+/-- for EVERY script of replies (answers, error statuses, transport failures, redirects to any location, 1xx / 304-style oddities),
+every request a retried adapter call puts on the wire is the output of one of its signings: the HTTP library emits nothing by
+itself -/
+theorem every_request_is_signed_afresh (sign : Nat → Wire) (tries j : Nat) (rs : List Reply) :
+    ∀ p ∈ (callRequests sign tries j rs).1, p.2 = sign p.1 :=
+  callWith_signed _ _ redirects_never_followed _ sign tries j rs
+
+/-- one request per attempt: at most `max_tries` requests per call, signings numbered consecutively (one clock reading each) -/
+theorem one_request_per_attempt (sign : Nat → Wire) (tries j : Nat) (rs : List Reply) :
+    (callRequests sign tries j rs).1.length ≤ tries ∧
+    (callRequests sign tries j rs).1.map (·.1) = (List.range (callRequests sign tries j rs).1.length).map (j + ·) :=
+  ⟨callWith_length _ _ redirects_never_followed _ sign tries j rs, callWith_numbering _ _ redirects_never_followed _ sign tries j rs⟩
+
+/-- `_partial` of the property over whole exchanges: whatever the service replies, every request that reaches the wire carries a
+signature that the published algorithm recomputes from that very request.  Missing: D8, D10, D11 inputs (`NoKnownDefect`). -/
+theorem every_wire_request_verifies_partial (c : Crypto) (plus : Bool) (i : Nat → Inputs)
+    (wf : ∀ k, WellFormed (i k)) (ok : ∀ k, NoKnownDefect (i k)) (tries j : Nat) (rs : List Reply) :
+    ∀ p ∈ (callRequests (fun k => toWire c (i k)) tries j rs).1,
+      p.2 = toWire c (i p.1) ∧ refSignature c plus (i p.1).secret (i p.1).region p.2 = clientSignature c (i p.1) := by
+  intro p hp
+  have h := every_request_is_signed_afresh (fun k => toWire c (i k)) tries j rs p hp
+  refine ⟨h, ?_⟩
+  rw [h]
+  exact signature_agrees_partial c plus (i p.1) (wf p.1) (ok p.1)
+
+/-- why BOTH places matter — a client that follows redirects behind a hook that lets them pass, `GET /b/x` at `http://h`:
+* 307 → `/b/y` on the same origin: the second request carries the `Authorization` of the first, which no longer verifies;
+* 307 → host `g`: the second request carries no `Authorization` at all;
+* 302 for a `PUT`: the follow-up is a `GET` with the `PUT`'s signature. -/
+theorem followed_redirect_witness :
+    let i := demo [47, 98, 47, 120] [104] [104, 116, 116, 112] []
+    let sign : Nat → Wire := fun _ => toWire idCrypto i
+    let put : Nat → Wire := fun _ => { toWire idCrypto i with method := [80, 85, 84] }
+    let sameOrigin := callWith true false 20 sign 4 0 [.redirect 307 ⟨true, false, [104], [47, 98, 47, 121], []⟩]
+    let otherHost := callWith true false 20 sign 4 0 [.redirect 307 ⟨false, false, [103], [47, 98, 47, 120], []⟩]
+    let found := callWith true false 20 put 4 0 [.redirect 302 ⟨true, false, [104], [47, 98, 47, 120], []⟩]
+    sameOrigin.1.map (fun p => (p.1, p.2.path, refCanonicalRequest true p.2 == clientCanonicalRequest i))
+      = [(0, [47, 98, 47, 120], true), (0, [47, 98, 47, 121], false)] ∧
+    sameOrigin.1.map (fun p => p.2.authorization) = [(sign 0).authorization, (sign 0).authorization] ∧
+    otherHost.1.map (fun p => (p.2.host, p.2.authorization.isEmpty)) = [([104], false), ([103], true)] ∧
+    found.1.map (fun p => p.2.method) = [[80, 85, 84], mGet] ∧
+    found.1.map (fun p => p.2.authorization) = [(put 0).authorization, (put 0).authorization] :=
+  ⟨by decide, rfl, by decide, by decide, rfl⟩
+
+/-- each place alone is inert: following redirects behind the raising hook, or a lenient hook without following -/
+theorem one_place_alone_is_inert (follow hook : Bool) (h : follow = false ∨ hook = true) (mr : Nat) (sign : Nat → Wire)
+    (tries j : Nat) (rs : List Reply) : ∀ p ∈ (callWith follow hook mr sign tries j rs).1, p.2 = sign p.1 :=
+  callWith_signed follow hook h mr sign tries j rs
+
 /-! ## non-vacuity -/
+example : (callWith false true 20 (fun _ => toWire idCrypto (demo [47, 98, 47, 120] [104] [104, 116, 116, 112] [])) 4 0
+    [.redirect 307 ⟨true, false, [104], [47, 98, 47, 121], []⟩, .odd, .fail .transport]).1.map (·.1) = [0, 1, 2, 3] := by decide
+
+example : Safe false false ∧ Safe true true ∧ ¬ Safe true false := by unfold Safe; decide
+
 example : WellFormed (demo [47, 98, 47, 120] [104] [104, 116, 116, 112] (listQuery (some [116]) [112])) ∧
     NoKnownDefect (demo [47, 98, 47, 120] [104] [104, 116, 116, 112] (listQuery (some [116]) [112])) :=
   ⟨⟨by decide, by decide, list_query_keys_ok (some [116]) [112]⟩, by decide, fun p hp => Or.inr (by
